@@ -38,7 +38,12 @@ FieldCases ==
     {[kind |-> "field", name |-> n] :
         n \in (SeqsUpTo(FieldAlpha, IF Tier = "quick" THEN 4 ELSE 5) \ {<<>>})}
 
-Cases == IF Shard = 4 THEN FieldCases ELSE StrCases(Shard)
+\* shard 5: the texts the repository's own tests build Sigma strings from (harvested by the driver, one JSON record per
+\* text), judged under the configurations of group 1 like the generated ones
+Harvested == IF Shard = 5 THEN ndJsonDeserialize(IOEnv.VERIF_IN) ELSE <<>>
+HarvestCases == {[kind |-> "str", g |-> 1, ks |-> Groups[1].ks, src |-> Harvested[i].src,
+                  subj |-> SetToSeq(SubjAlpha(Harvested[i].src)), subjci |-> SetToSeq(SubjAlphaCI(Harvested[i].src))] : i \in 1..Len(Harvested)}
+Cases == IF Shard = 4 THEN FieldCases ELSE IF Shard = 5 THEN HarvestCases ELSE StrCases(Shard)
 
 SetJ(S) == SetToSeq(S)
 ConfigJson == [i \in 1..Len(Configs) |->
